@@ -399,7 +399,7 @@ def add_parse_cases(ctx, cases, body, ctype_value, clen, cb, label,
 # --------------------------------------------------------- correspondence
 def corr_small(ctx, cases):
     rng = ctx.rng
-    nbodies = 260 if ctx.quick else 2500
+    nbodies = 220 if ctx.quick else 2500
     maxparts = 3 if ctx.quick else 6
     for i in range(nbodies):
         # keep model-side literals small
@@ -694,7 +694,7 @@ def monitor_case(ctx, boundary, parts, final, clen_on, cb, kbv, tag,
 
 def monitor(ctx):
     rng = ctx.rng
-    n = 220 if ctx.quick else 4000
+    n = 180 if ctx.quick else 4000
     maxparts = 3 if ctx.quick else 6
     for i in range(n):
         boundary = gen_boundary(rng)
@@ -787,9 +787,9 @@ def e2e(ctx):
     """POST through a real Application around app.data_size"""
     from poorwsgi import state
     rng = ctx.rng
-    configs = [(200, 16), (200, 1), (300, 37), (150, 4096)]
+    configs = [(420, 16), (500, 1), (640, 37), (450, 4096)]
     if not ctx.quick:
-        configs += [(64, 3), (1000, 100), (500, 2)]
+        configs += [(400, 3), (1000, 100), (700, 2)]
     configs.append((65365, 65365))       # production defaults
     for data_size, cached_size in configs:
         for cb in (False, True):
